@@ -11,8 +11,12 @@ operation, no routing entry refers to that operation and its ID is reserved only
 been handed to ANOTHER outstanding operation (it is reusable); `C12_late_reply_is_dropped` — a
 response arriving under the ID of a timed-out operation whose scrub has been handled and whose ID
 has not been handed out again matches nothing: it is dropped and changes nothing but the read cursor.
+`C12_timeout_leaves_others_registered` — when one operation times out and the driver handles its scrub, another
+operation waiting for its reply is untouched and still registered (the connection keeps serving it).
+The `_nowrap` forms need no schedule hypothesis (histories with at most 2^31-1 allocations).
 -/
 import Ldap3V.Lemmas.ConnFinal
+import Ldap3V.Lemmas.ConnGaps
 namespace Ldap3V.Conn
 
 /-- The timeout law of one poll of a timed operation, for EVERY state:
@@ -202,6 +206,99 @@ theorem C12_result_is_final (N : Nat) (before after : List Ev) (hf : FreshRun2 (
   obtain ⟨o', ho', hk⟩ := resKeep_run after _ hp hu ha hr hf2 i o ho
   exact ⟨o', ho', by rw [hk (by rw [hres]; rfl), hres]⟩
 
+/-! ### the whole-history theorems without a schedule hypothesis
+
+`FreshRun2` (finding F13) holds for every history with at most `N` (= 2^31-1) allocations
+(`freshRun2_init`, Lemmas/ConnNoWrap.lean). -/
+
+/-- `C12_timed_out_holds_no_routing_state` for every history with at most `N` allocations -/
+theorem C12_timed_out_holds_no_routing_state_nowrap (N : Nat) (evs : List Ev) (hcount : allocCount evs ≤ N) (i : Nat) (o : Op)
+    (ho : (run (init N) evs).ops[i]? = some o) (hto : o.res = some .timeout)
+    (hscrubbed : o.id ∉ (run (init N) evs).scrubQ) :
+    (∀ p ∈ (run (init N) evs).resultmap, p.2 ≠ i) ∧
+    (∀ p ∈ (run (init N) evs).searchmap, o.chan ≠ some p.2) ∧
+    (o.id ∈ (run (init N) evs).inUse → i ∉ (run (init N) evs).opQ → o.kind ≠ .unbind →
+      ∃ (j : Nat) (oj : Op), j ≠ i ∧ (run (init N) evs).ops[j]? = some oj ∧ oj.id = o.id ∧ Reg (run (init N) evs) j oj) :=
+  C12_timed_out_holds_no_routing_state N evs (freshRun2_init N evs hcount) i o ho hto hscrubbed
+
+/-- `C12_reply_under_unreserved_id_is_dropped` for every history with at most `N` allocations -/
+theorem C12_reply_under_unreserved_id_is_dropped_nowrap (N : Nat) (evs : List Ev) (hcount : allocCount evs ≤ N) (k : Nat) (f : Frame)
+    (hfree : k ∉ (run (init N) evs).inUse)
+    (hd : (run (init N) evs).drv = .running) (hnext : (run (init N) evs).srvLog[(run (init N) evs).pos]? = some f)
+    (hid : f.id = (k : Int)) :
+    step (run (init N) evs) .drvResp = some ({ run (init N) evs with pos := (run (init N) evs).pos + 1 }, .none) :=
+  C12_reply_under_unreserved_id_is_dropped N evs (freshRun2_init N evs hcount) k f hfree hd hnext hid
+
+/-- `C12_late_reply_is_dropped` for every history with at most `N` allocations -/
+theorem C12_late_reply_is_dropped_nowrap (N : Nat) (evs : List Ev) (hcount : allocCount evs ≤ N) (i : Nat) (o : Op) (f : Frame)
+    (ho : (run (init N) evs).ops[i]? = some o) (hto : o.res = some .timeout)
+    (hnotreused : o.id ∉ (run (init N) evs).inUse)
+    (hd : (run (init N) evs).drv = .running) (hnext : (run (init N) evs).srvLog[(run (init N) evs).pos]? = some f)
+    (hid : f.id = (o.id : Int)) :
+    step (run (init N) evs) .drvResp = some ({ run (init N) evs with pos := (run (init N) evs).pos + 1 }, .none) :=
+  C12_late_reply_is_dropped N evs (freshRun2_init N evs hcount) i o f ho hto hnotreused hd hnext hid
+
+/-- `C12_result_is_final` for every history with at most `N` allocations -/
+theorem C12_result_is_final_nowrap (N : Nat) (before after : List Ev) (hcount : allocCount (before ++ after) ≤ N)
+    (i : Nat) (o : Op) (r : Res)
+    (ho : (run (init N) before).ops[i]? = some o) (hres : o.res = some r) :
+    ∃ o' : Op, (run (init N) (before ++ after)).ops[i]? = some o' ∧ o'.res = some r :=
+  C12_result_is_final N before after (freshRun2_init N _ hcount) i o r ho hres
+
+/-! ### after a time-out the connection keeps serving the other operations (run level) -/
+
+/-- the poll at which operation `i` times out, followed by the driver working off its scrub queue:
+the scrubs that were queued before (in state `s`), then the one `i` has just asked for -/
+def timeoutAndScrubs (s : St) (i : Nat) : List Ev := .poll i :: List.replicate (s.scrubQ.length + 1) .drvScrub
+
+/-- **whole histories**: after ANY history, let operation `i` be waiting (request queued or taken, reply slot
+empty, not returned) with its deadline reached, and let ANOTHER operation `j` be waiting for its reply with
+the driver (taken, reply slot empty), nobody having asked to scrub `j`'s ID.  When `i` is polled and
+the driver then handles the queued scrubs up to and including `i`'s: `i` has returned the time-out, its
+ID is released, the driver is running with an empty scrub queue — and `j` is exactly as it was (still waiting,
+nothing put into or dropped from its reply slot) and still registered under its ID, so that its
+response will be routed to it.  (`C12_scrub_frame` lifted over the steps `.poll i`, `.drvScrub`…;
+the IDs of `i` and `j` differ by the uniqueness invariant `Uniq`.) -/
+theorem C12_timeout_leaves_others_registered (N : Nat) (evs : List Ev) (hf : FreshRun2 (init N) evs)
+    (i j : Nat) (oi oj : Op) (d : Nat) (hij : i ≠ j)
+    (hoj : (run (init N) evs).ops[j]? = some oj) (hjp : oj.phase = .taken) (hjm : oj.mail = .empty)
+    (hoi : (run (init N) evs).ops[i]? = some oi) (hres : oi.res = none) (hph : oi.phase ≠ .allocated) (him : oi.mail = .empty)
+    (hd : oi.deadline = some d) (hle : d ≤ (run (init N) evs).now) (hr : (run (init N) evs).drv = .running)
+    (hnq : oj.id ∉ (run (init N) evs).scrubQ) :
+    (run (init N) (evs ++ timeoutAndScrubs (run (init N) evs) i)).drv = .running ∧
+    (run (init N) (evs ++ timeoutAndScrubs (run (init N) evs) i)).scrubQ = [] ∧
+    (∃ oi' : Op, (run (init N) (evs ++ timeoutAndScrubs (run (init N) evs) i)).ops[i]? = some oi' ∧ oi'.res = some .timeout) ∧
+    oi.id ∉ (run (init N) (evs ++ timeoutAndScrubs (run (init N) evs) i)).inUse ∧
+    (run (init N) (evs ++ timeoutAndScrubs (run (init N) evs) i)).ops[j]? = some oj ∧
+    (oj.id, j) ∈ (run (init N) (evs ++ timeoutAndScrubs (run (init N) evs) i)).resultmap ∧
+    lookup (run (init N) (evs ++ timeoutAndScrubs (run (init N) evs) i)).resultmap (oj.id : Int) = some j := by
+  obtain ⟨hp, hu, ha, hri⟩ := reach N evs hf
+  have hf' : FreshRun2 (init N) (evs ++ timeoutAndScrubs (run (init N) evs) i) :=
+    freshRun2_append_nonalloc _ _ _ hf (by
+      intro e he
+      simp only [timeoutAndScrubs, List.mem_cons, List.mem_replicate] at he
+      rcases he with rfl | ⟨_, rfl⟩ <;> rfl)
+  obtain ⟨_, hu', ha', _⟩ := reach N _ hf'
+  have h := timeout_then_scrubs _ hp hu ha hri i j oi oj d hij hoj hjp hjm hoi hres hph him hd hle hr hnq
+  rw [run_append] at hu' ha' ⊢
+  exact ⟨h.1, h.2.1, h.2.2.1, h.2.2.2.1, h.2.2.2.2.1, h.2.2.2.2.2, lookup_of_mem hu' ha' h.2.2.2.2.2⟩
+
+/-- the same for every history with at most `N` (= 2^31-1) allocations, with no schedule hypothesis -/
+theorem C12_timeout_leaves_others_registered_nowrap (N : Nat) (evs : List Ev) (hcount : allocCount evs ≤ N)
+    (i j : Nat) (oi oj : Op) (d : Nat) (hij : i ≠ j)
+    (hoj : (run (init N) evs).ops[j]? = some oj) (hjp : oj.phase = .taken) (hjm : oj.mail = .empty)
+    (hoi : (run (init N) evs).ops[i]? = some oi) (hres : oi.res = none) (hph : oi.phase ≠ .allocated) (him : oi.mail = .empty)
+    (hd : oi.deadline = some d) (hle : d ≤ (run (init N) evs).now) (hr : (run (init N) evs).drv = .running)
+    (hnq : oj.id ∉ (run (init N) evs).scrubQ) :
+    (run (init N) (evs ++ timeoutAndScrubs (run (init N) evs) i)).drv = .running ∧
+    (run (init N) (evs ++ timeoutAndScrubs (run (init N) evs) i)).scrubQ = [] ∧
+    (∃ oi' : Op, (run (init N) (evs ++ timeoutAndScrubs (run (init N) evs) i)).ops[i]? = some oi' ∧ oi'.res = some .timeout) ∧
+    oi.id ∉ (run (init N) (evs ++ timeoutAndScrubs (run (init N) evs) i)).inUse ∧
+    (run (init N) (evs ++ timeoutAndScrubs (run (init N) evs) i)).ops[j]? = some oj ∧
+    (oj.id, j) ∈ (run (init N) (evs ++ timeoutAndScrubs (run (init N) evs) i)).resultmap ∧
+    lookup (run (init N) (evs ++ timeoutAndScrubs (run (init N) evs) i)).resultmap (oj.id : Int) = some j :=
+  C12_timeout_leaves_others_registered N evs (freshRun2_init N evs hcount) i j oi oj d hij hoj hjp hjm hoi hres hph him hd hle hr hnq
+
 /-! ### non-vacuity (tests): reply one tick before, at, and after the deadline -/
 def tScript (replyAt : Nat) : List Ev :=
   [.alloc .single, .enqueue 0 (some 10), .drvOp true] ++
@@ -212,5 +309,50 @@ example : ((run (init 100) (tScript 9)).ops.map (·.res)) = [some (.frame ⟨1, 
 example : ((run (init 100) (tScript 10)).ops.map (·.res)) = [some (.frame ⟨1, 11, 5, true⟩)] := by decide
 example : ((run (init 100) (tScript 11)).ops.map (·.res)) = [some .timeout] ∧
     ((run (init 100) (tScript 11)).ops.map (·.mail)) = [.dropped] ∧ (run (init 100) (tScript 11)).inUse = [] := by decide
+
+/-- hypotheses of `C12_timed_out_holds_no_routing_state_nowrap`: op 0 timed out and its scrub has been handled -/
+example :
+    let s := run (init 100) (tScript 11)
+    allocCount (tScript 11) ≤ 100 ∧ (s.ops[0]?.map fun o => (o.res, decide (o.id ∈ s.scrubQ))) = some (some .timeout, false) := by decide
+
+/-- hypotheses of `C12_reply_under_unreserved_id_is_dropped_nowrap` / `C12_late_reply_is_dropped_nowrap`: the late
+reply to the timed-out, scrubbed operation is the driver's next frame -/
+def lateReplyHistory : List Ev :=
+  [.alloc .single, .enqueue 0 (some 10), .drvOp true, .tick 10, .poll 0, .drvScrub, .tick 1, .srvSend ⟨1, 11, 5, true⟩]
+
+example :
+    let s := run (init 100) lateReplyHistory
+    allocCount lateReplyHistory ≤ 100 ∧ 1 ∉ s.inUse ∧ s.drv = .running ∧ s.srvLog[s.pos]? = some ⟨1, 11, 5, true⟩ ∧
+    (s.ops[0]?.map fun o => (o.res, o.id)) = some (some .timeout, 1) := by decide
+
+/-- hypotheses of `C12_result_is_final_nowrap`: the time-out has been returned; scrub, late reply and a
+further answered operation follow -/
+example :
+    let before : List Ev := [.alloc .single, .enqueue 0 (some 10), .drvOp true, .tick 10, .poll 0]
+    let after : List Ev := [.drvScrub, .srvSend ⟨1, 11, 5, true⟩, .drvResp, .alloc .single, .enqueue 1 none, .drvOp true,
+      .srvSend ⟨2, 11, 6, true⟩, .drvResp, .poll 1]
+    allocCount (before ++ after) ≤ 100 ∧ ((run (init 100) before).ops[0]?.map (·.res)) = some (some .timeout) ∧
+    (run (init 100) (before ++ after)).ops.map (·.res) = [some .timeout, some (.frame ⟨2, 11, 6, true⟩)] := by decide
+
+/-- hypotheses of `C12_timeout_leaves_others_registered_nowrap`: op 0 (timeout 10) and op 2 (no timeout) wait with the
+driver, a finished search's scrub (ID 2) is queued ahead, the clock has reached op 0's deadline -/
+def twoWaitingHistory : List Ev :=
+  [.alloc .single, .enqueue 0 (some 10), .alloc .search, .enqueue 1 none, .alloc .single, .enqueue 2 none,
+   .drvOp true, .drvOp true, .drvOp true, .poll 1, .finish 0 true, .tick 10]
+
+example :
+    let s := run (init 100) twoWaitingHistory
+    allocCount twoWaitingHistory ≤ 100 ∧ s.drv = .running ∧ s.scrubQ = [2] ∧ s.now = 10 ∧
+    (s.ops[0]?.map fun o => (o.id, o.res, o.phase, o.mail, o.deadline)) = some (1, none, .taken, .empty, some 10) ∧
+    (s.ops[2]?.map fun o => (o.id, o.res, o.phase, o.mail)) = some (3, none, .taken, .empty) ∧
+    (timeoutAndScrubs s 0).length = 3 := by decide
+
+/-- … and its conclusion on that history; the reply to op 2 then reaches it -/
+example :
+    let s' := run (init 100) (twoWaitingHistory ++ timeoutAndScrubs (run (init 100) twoWaitingHistory) 0)
+    s'.drv = .running ∧ s'.scrubQ = [] ∧ s'.inUse = [3] ∧ s'.resultmap = [(3, 2)] ∧
+    s'.ops.map (·.res) = [some .timeout, some .ack, none] ∧
+    (run s' [.srvSend ⟨3, 11, 6, true⟩, .drvResp, .poll 2]).ops.map (·.res) =
+      [some .timeout, some .ack, some (.frame ⟨3, 11, 6, true⟩)] := by decide
 
 end Ldap3V.Conn
